@@ -140,16 +140,16 @@ CHECKS = {'C10': {'level': 'other',
  'C06': {'level': 'other',
          'engine': 'pyvc',
          'technique': "contracts on the ARC-4 layout arithmetic, on _encode_tuple's first loop (pyvc loop invariants against an independent element-by-element position function, z3) and on the "
-                      'scalar codec helpers uint_set / uint_encode / Bool.encode and a semantic loop contract on _encode_bool_sequence (pyvc, every width x symbolic value; counterexamples replayed '
-                      'on the real functions / spec AVM) + bounded stand-in against the reference codec algosdk.abi (shapes, layout classes, copy matrix, length-prefix boundaries)',
+                      'scalar codec helpers uint_set / uint_encode / Bool.set / Bool.encode and a semantic loop contract on _encode_bool_sequence (pyvc, every width x symbolic value; counterexamples '
+                      'replayed on the real functions / spec AVM) + bounded stand-in against the reference codec algosdk.abi (shapes, layout classes, copy matrix, length-prefix boundaries)',
          'text': '_bool_sequence_length, _consecutive_thing_num, _bool_aware_static_byte_length and the head-position bookkeeping of _encode_tuple are proved for every type sequence against the '
                  'ARC-4 position function (bool packing included). Type strings, dynamic-ness, static lengths and the bytes produced by set()/encode() are compared with algosdk.abi for generated and '
                  'layout-class shapes with boundary-biased values at versions 5..10, in the main routine and inside subroutines; X.set(another ABI value) for all ordered pairs of 14 types; every '
                  'route by which a dynamic value gets its uint16 length prefix at lengths around 255/256 ... 4000 (bounded). Proved for every supported width and every value: uint_set accepts a '
                  'Python int iff it lies in [0, 2^N) (using the proved contract of Int) and then stores exactly that constant; for an expression value of width < 64 the store is followed by '
-                 'Assert(load < Int(2^N)), for 64 bits by nothing; uint_encode is the last N/8 bytes of itob(value) (setbyte into one zero byte for N = 8); Bool.encode is setbit(0x00, 0, value); '
-                 '_encode_bool_sequence denotes, for every number n of bools, ceil(n/8) bytes whose bit j is value j (later bits 0), every setbit index inside the string. The same cases remain in '
-                 'the bounded stand-in end to end.',
+                 'Assert(load < Int(2^N)), for 64 bits by nothing; uint_encode is the last N/8 bytes of itob(value) (setbyte into one zero byte for N = 8); Bool.set stores Int(1/0) for a Python bool '
+                 'and Not(Not(e)) for an expression; Bool.encode is setbit(0x00, 0, value); _encode_bool_sequence denotes, for every number n of bools, ceil(n/8) bytes whose bit j is value j (later '
+                 'bits 0), every setbit index inside the string. The same cases remain in the bounded stand-in end to end.',
          'note': "trusted: algosdk.abi, the position-function spec, TypeSpec interface contracts for element types. The Expr layer of _encode_tuple's second loop is bounded only; the scalar codec "
                  "contracts summarise the Expr constructors (Int, Seq, Assert, Itob, Suffix, SetByte, <) as constructor terms whose AVM meaning is the fragment catalogue's (C01). "
                  '_encode_bool_sequence assumes len(values) <= sys.maxsize and takes Bytes / SetBit / Int by their AVM meaning (spec functions bitsOf / byteLenOf).',
